@@ -70,10 +70,79 @@ class StmtMixin:
         return True
 
     def ex_Global(self, s, fr, st):
-        self.effect("unsupported", self.site_of(s, fr), st, fr, what="global")
+        fr.declared_globals.update(s.names)
         return True
 
-    ex_Nonlocal = ex_Global
+    def ex_Nonlocal(self, s, fr, st):
+        fr.declared_nonlocals.update(s.names)
+        return True
+
+    def _outer_name_write(self, name, v, fr, st, site):
+        """assignment to a name declared global / nonlocal: the binding outlives the call"""
+        if name in fr.declared_globals:
+            self.effect("global-write", site, st, fr, node=v, name=name,
+                        func=fr.func.qualname if fr.func else "<module>")
+        elif name in fr.declared_nonlocals:
+            self.effect("nonlocal-write", site, st, fr, node=v, name=name,
+                        func=fr.func.qualname if fr.func else "<module>")
+
+    def ex_Match(self, s, fr, st):
+        """match over literal / singleton / wildcard / or-patterns is an if-elif chain on equality"""
+        site = self.site_of(s, fr)
+        subj = self.val(s.subject, fr, st)
+
+        def cond_of(pat):
+            if isinstance(pat, ast.MatchValue):
+                return self.compare("Eq", subj, self.val(pat.value, fr, st), site)
+            if isinstance(pat, ast.MatchSingleton):
+                return self.compare("Is", subj, self.const(pat.value, site), site)
+            if isinstance(pat, ast.MatchOr):
+                cs = [cond_of(p_) for p_ in pat.patterns]
+                if any(c is None or c is True for c in cs):
+                    return True if any(c is True for c in cs) else None
+                return self.mk("BoolOp", tuple(cs), "Or", site)
+            if isinstance(pat, ast.MatchAs) and pat.pattern is None:
+                return True             # wildcard / bare capture
+            return None
+        cases = []
+        for c in s.cases:
+            cn = cond_of(c.pattern)
+            if cn is None or c.guard is not None:
+                self.effect("unsupported", site, st, fr, what="Match pattern")
+                self._havoc_assigned([x for c_ in s.cases for x in c_.body], fr, st, site)
+                return True
+            cases.append((cn, c))
+
+        def run(k, st_):
+            if k >= len(cases):
+                return True
+            cn, c = cases[k]
+            if cn is True:
+                if isinstance(c.pattern, ast.MatchAs) and c.pattern.name:
+                    st_.locals[c.pattern.name] = subj
+                return self.exec_block(c.body, fr, st_)
+            t = self.truth(cn)
+            if t is True:
+                return self.exec_block(c.body, fr, st_)
+            if t is False:
+                return run(k + 1, st_)
+            base_pc = st_.pc
+            s1, s2 = st_.copy(), st_.copy()
+            s1.pc = base_pc + ((cn, True),)
+            s2.pc = base_pc + ((cn, False),)
+            f1 = self.exec_block(c.body, fr, s1)
+            f2 = run(k + 1, s2)
+            if f1 and f2:
+                st_.assign_from(self.merge2(cn, s1, s2, base_pc))
+                return True
+            if f1:
+                st_.assign_from(s1)
+                return True
+            if f2:
+                st_.assign_from(s2)
+                return True
+            return False
+        return run(0, st)
 
     def ex_Delete(self, s, fr, st):
         site = self.site_of(s, fr)
@@ -162,6 +231,8 @@ class StmtMixin:
         site = self.site_of(t, fr)
         if isinstance(t, ast.Name):
             st.locals[t.id] = v
+            if fr.declared_globals or fr.declared_nonlocals:
+                self._outer_name_write(t.id, v, fr, st, site)
         elif isinstance(t, (ast.Tuple, ast.List)):
             rv = self.res(v, st)
             n = len(t.elts)
@@ -250,6 +321,8 @@ class StmtMixin:
             ident = self.lookup_name(t.id, fr, st, site)
             cur = self.res(ident, st)
             new = self.binop(opname, cur, rhs, site)
+            if fr.declared_globals or fr.declared_nonlocals:
+                self._outer_name_write(t.id, new, fr, st, site)
             if not self.maybe_mutable(cur):
                 st.locals[t.id] = new
                 return True
@@ -376,10 +449,41 @@ class StmtMixin:
         return ok
 
     def ex_While(self, s, fr, st):
+        """a while loop whose test folds to a constant on every evaluation is unrolled (bounded); anything else is
+        summarised by havoc of the assigned names"""
         site = self.site_of(s, fr)
-        self.effect("unsupported", site, st, fr, what="while")
-        self._havoc_assigned(s.body, fr, st, site)
-        return True
+        loop_entry = len(st.pc)
+        ctx = {"break": [], "continue": []}
+        fr.loops.append(ctx)
+        alive, decided = True, True
+        try:
+            for _k in range(64):
+                t = self.truth(self.val(s.test, fr, st))
+                if t is None:
+                    decided = False
+                    break
+                if t is False:
+                    break
+                if not self._loop_body(s.body, fr, st, ctx):
+                    alive = False
+                    break
+            else:
+                decided = False
+        finally:
+            fr.loops.pop()
+        if not decided:
+            self.effect("unsupported", site, st, fr, what="while")
+            self._havoc_assigned(s.body, fr, st, site)
+            return True
+        if alive and s.orelse:
+            alive = self.exec_block(s.orelse, fr, st)
+        if ctx["break"]:
+            none = self.const(None)
+            exits = [(s_, none) for s_ in ctx["break"]] + ([(st, none)] if alive else [])
+            mst, _v = self.merge_exits(exits, loop_entry)
+            st.assign_from(mst)
+            alive = True
+        return alive
 
     def _havoc_assigned(self, body, fr, st, site):
         for n in ast.walk(ast.Module(body=body, type_ignores=[])):
